@@ -155,12 +155,12 @@ Fixpoint parent_of (id : nat) (t : bnode) : option nat :=
     end
   end.
 
-(* rewrite the child list that contains the node: pre ++ [c] ++ post becomes g pre c post *)
-Fixpoint edit_kids (id : nat) (g : list bnode -> bnode -> list bnode -> list bnode) (t : bnode) : option bnode :=
+(* rewrite the child list that contains the node: pre ++ [c] ++ post becomes g pk pre c post, pk = kind of the parent *)
+Fixpoint edit_kids (id : nat) (g : kind -> list bnode -> bnode -> list bnode -> list bnode) (t : bnode) : option bnode :=
   match t with
   | BNode i ch =>
     match split_kid id ch with
-    | Some (pre, c, post) => Some (BNode i (g pre c post))
+    | Some (pre, c, post) => Some (BNode i (g (kind_of (bi_val i)) pre c post))
     | None =>
       match (fix go (l : list bnode) : option (list bnode) :=
                match l with
@@ -364,7 +364,7 @@ Definition last_child_is_open (st : pstate) (id : nat) : res (option nat) :=
 
 (* Node::detach: the subtree leaves the tree *)
 Definition bdetach (st : pstate) (id : nat) : res pstate :=
-  match edit_kids id (fun pre _ post => pre ++ post) (ps_root st) with
+  match edit_kids id (fun _ pre _ post => pre ++ post) (ps_root st) with
   | Some r => Ok (st_root st r)
   | None => Ok st                          (* no parent: detach of a detached node / the root is a no-op *)
   end.
@@ -503,15 +503,22 @@ Fixpoint add_child_loop (fuel : nat) (o : bopts) (st : pstate) (parent : nat) (k
       add_child_loop f o (snd r) (fst r) k
   end.
 
-(* add_child(parent, value, start_column): returns the new node's identifier *)
-Definition add_child (o : bopts) (st : pstate) (parent : nat) (v : node_value) (start_column : nat) : res (nat * pstate) :=
+(* add_child(parent, value, start_column): returns the new node's identifier.
+   add_child_gen: the caller's statements that directly follow the call and only touch the new node are folded
+   into the creation: `post` (fields set on the new node; it keeps the kind of the value) and `kids`
+   (a detached subtree appended to it). *)
+Definition add_child_gen (o : bopts) (st : pstate) (parent : nat) (v : node_value) (start_column : nat)
+  (post : binfo -> binfo) (kids : list bnode) : res (nat * pstate) :=
   do r <- add_child_loop (S (ps_next st)) o st parent (kind_of v);
   let '(parent', st1) := r in
   if Nat.eqb start_column 0 then Panic "mod.rs:add_child:assert!(start_column > 0)" else
   let id := ps_next st1 in
-  let node := BNode (new_info id v (ps_line_number st1) start_column) [] in
+  let node := BNode (post (new_info id v (ps_line_number st1) start_column)) kids in
   do st2 <- append_child (st_next st1 (S id)) parent' node;
   Ok (id, st2).
+
+Definition add_child (o : bopts) (st : pstate) (parent : nat) (v : node_value) (start_column : nat) : res (nat * pstate) :=
+  add_child_gen o st parent v start_column (fun i => i) [].
 
 (* ------------------------------------------------------------------ add_line *)
 Definition add_line (st : pstate) (id : nat) (line : bytes) : res pstate :=
@@ -802,7 +809,8 @@ Definition try_inserting_table_header_paragraph (st : pstate) (container : nat) 
     let id := ps_next st in
     let para := BNode (set_lo lo (set_content content (set_end el ec (new_info id Paragraph (bi_sl ci) (bi_sc ci))))) [] in
     do st1 <- modify_info (st_next st (S id)) container (set_start (bi_sl ci + newlines) (bi_sc ci));
-    match edit_kids container (fun pre x post => pre ++ [para; x] ++ post) (ps_root st1) with
+    (* the test on pk repeats the can_contain_type test above at the place of the insertion *)
+    match edit_kids container (fun pk pre x post => if can_contain pk KParagraph then pre ++ [para; x] ++ post else pre ++ x :: post) (ps_root st1) with
     | Some r => Ok (st_root st1 r)
     | None => no_node
     end
@@ -873,7 +881,8 @@ Definition try_opening_header (o : bopts) (st : pstate) (container : nat) (line 
         if Nat.eqb (List.length line) 0 then Panic "table.rs:try_opening_header:line.len() - 1" else
         do st3 <- adv st2 line k2 false;
         (* open_new_blocks: container.insert_after(new_container); container.detach() *)
-        match edit_kids container (fun pre _ post => pre ++ [table] ++ post) (ps_root st3) with
+        (* `container` is the paragraph found above; the test repeats it at the place of the replacement *)
+        match edit_kids container (fun _ pre x post => if is_paragraph x then pre ++ [table] ++ post else pre ++ x :: post) (ps_root st3) with
         | Some r => Ok (TNew tid, st_root st3 r)
         | None => Panic "arena_tree.rs:insert_after:self.parent (no parent)"
         end
@@ -999,12 +1008,12 @@ Definition parse_desc_list_details (o : bopts) (st : pstate) (container : nat) (
       do a <- add_child o st2 list (DescriptionItem (N.of_nat (indent st2)) (N.of_nat matched) tight) col;
       let '(item, st3) := a in
       do st4 <- modify_info st3 item (set_start lsl lsc);
-      do a <- add_child o st4 item DescriptionTerm col;
+      (* term = add_child(item, DescriptionTerm); details = add_child(item, DescriptionDetails); term.append(last_child) *)
+      do a <- add_child_gen o st4 item DescriptionTerm col (fun i => i) [lc];
       let '(term, st5) := a in
       do a <- add_child o st5 item DescriptionDetails col;
       let '(details, st6) := a in
-      do st7 <- append_child st6 term lc;
-      Ok (true, details, st7)
+      Ok (true, details, st6)
     | DescriptionItem _ _ tight2 =>
       match parent_of (bid lc) (ps_root st) with
       | None => Panic "mod.rs:parse_desc_list_details:last_child.parent().unwrap()"
@@ -1115,15 +1124,16 @@ Definition handle_atx_heading (o : bopts) (st : pstate) (container : nat) (line 
     let heading_startpos := fns st in
     do k <- sub "mod.rs:handle_atx_heading:heading_startpos + *matched - offset" (heading_startpos + matched) (offset st);
     do st1 <- adv st line k false;
-    do a <- add_child o st1 container (Heading 0 false) (S heading_startpos);
-    let '(h, st2) := a in
+    (* add_child(.., Heading(default), ..) followed by the computation of the level and
+       `container_ast.value = Heading{level, setext: false}; container_ast.internal_offset = matched` *)
     match position_hash rest with
     | None => Panic "mod.rs:handle_atx_heading:position(|&c| c == b'#').unwrap()"
     | Some p =>
       do level <- count_hashes (skipn p rest);
       if Nat.ltb 255 level then Panic "mod.rs:handle_atx_heading:level += 1" else
-      do st3 <- modify_info st2 h (fun i => set_ioff matched (set_val (Heading (N.of_nat level) false) i));
-      Ok (true, h, st3)
+      do a <- add_child_gen o st1 container (Heading 0 false) (S heading_startpos)
+                (fun i => set_ioff matched (set_val (Heading (N.of_nat level) false) i)) [];
+      Ok (true, fst a, snd a)
     end
   end.
 
